@@ -112,3 +112,4 @@ pub fn contract_named_number_lookup<C: Ctx>(cx: &mut C) {
 
 #[cfg(not(kani))]
 pub fn hook_octet_string_to_bit_string(bytes: &[u8]) -> Vec<bool> { octet_string_to_bit_string(bytes) }
+pub fn hook_bit_string_to_octet_string(bits: &[bool]) -> Option<Vec<u8>> { bit_string_to_octet_string(bits).ok() }
